@@ -1411,6 +1411,8 @@ class Bench:
         from harness.core.vloop import VirtualLoop
 
         bench = self
+        SetupPeer.handshakes = 0   # budget per campaign (symbolic / real / user / reconnect), not per process
+        SetupPeer.MAX_HANDSHAKES = 120 if self.mode == "real" else 30
         self.loop = VirtualLoop()
         asyncio.set_event_loop(self.loop)
         p = self.patches
